@@ -271,6 +271,107 @@ theorem run_wdUniform (v : Rib.Variant) (h : Rib.History) : RibWdUniform (Rib.ru
       exact ih _ (ribWdUniform_ev v r e hr)
   exact gen h _ ⟨fun _ => Iff.rfl, fun _ => Iff.rfl⟩
 
+/-! ## From the exact-match answer to the HTTP `data` section, and to the specifications -/
+
+/-- The exact-match record list behind the `data` section, in the shared model's terms, for each
+    way `Rib::match_prefix` combines the two tables:
+    * C11 `mcast` repaired: both tables;
+    * as written with an include requested: the unicast table alone (the multicast fallback
+      test `less_specifics.is_none()` is then false);
+    * as written without includes: `Rib.query` (unicast, multicast only if unicast is empty). -/
+def exactAnswer (vq : RibQuery.Variant) (inc : RibQuery.Includes) (r : Rib.Rib) (p : Rib.Prefix) : List Rib.Rec :=
+  if vq.mcast then queryMerged r p
+  else if inc.less || inc.more then r.unicast.matchExact p {}
+  else r.query p {}
+
+theorem pfxMeta_exactAnswer (vq : RibQuery.Variant) (ι : AttrInterp) (r : Rib.Rib) (p : Rib.Prefix)
+    (inc : RibQuery.Includes) (obsU obsM : List RibQuery.Prefix) :
+    ((ribToQ ι r).matchPrefix vq (qPfx p) inc.less inc.more obsU obsM).pfxMeta
+      = (exactAnswer vq inc r p).map (qRec ι p) := by
+  unfold exactAnswer
+  by_cases hv : vq.mcast = true
+  · simp only [hv, if_true]
+    exact pfxMeta_ribToQ_merged vq hv ι r p _ _ obsU obsM
+  · have hv' : vq.mcast = false := by simpa using hv
+    simp only [hv', Bool.false_eq_true, if_false]
+    by_cases hlm : (inc.less || inc.more) = true
+    · simp only [hlm, if_true]
+      exact pfxMeta_ribToQ_includes vq hv' ι r p _ _ hlm obsU obsM
+    · simp only [hlm, Bool.false_eq_true, if_false]
+      have h1 : inc.less = false := by cases h : inc.less <;> simp_all
+      have h2 : inc.more = false := by cases h : inc.more <;> simp_all
+      rw [h1, h2]
+      exact pfxMeta_ribToQ vq hv' ι r p obsU obsM
+
+theorem mem_map_filter (ι : AttrInterp) (p : Rib.Prefix) (L : List Rib.Rec) (f : RibQuery.Rec → Bool)
+    (x : RibQuery.Rec) :
+    x ∈ (L.map (qRec ι p)).filter f ↔
+      ∃ m st a, (⟨m, st, a⟩ : Rib.Rec) ∈ L ∧ x = ⟨qPfx p, m, qStatus st, ι a⟩ ∧ f x = true := by
+  simp only [List.mem_filter, List.mem_map]
+  constructor
+  · rintro ⟨⟨⟨m, st, a⟩, hmem, rfl⟩, hf⟩
+    exact ⟨m, st, a, hmem, rfl, hf⟩
+  · rintro ⟨m, st, a, hmem, rfl, hf⟩
+    exact ⟨⟨⟨m, st, a⟩, hmem, rfl⟩, hf⟩
+
+/-- A table never addressed for `p` holds no record of `p`, after any history. -/
+theorem get_none_of_unmentioned (v : Rib.Variant) (h : Rib.History) (mc : Bool) (p : Rib.Prefix)
+    (hno : h.any (Rib.Ev.mentions mc p) = false) (m : Rib.Mui) : (Rib.run v h).get mc p m = none := by
+  have := congrArg Rib.Abs.e (Rib.abs_run v h mc p m)
+  simp only [Rib.Rib.abs] at this
+  rw [Rib.Rib.get, this]
+  exact Rib.specRun_untouched v mc p m h hno _ rfl
+
+/-- One table's exact-match answer after a history = the per-key specification fold. -/
+theorem mem_table_iff_spec (v : Rib.Variant) (h : Rib.History) (mc : Bool) (p : Rib.Prefix)
+    (m : Rib.Mui) (st : Rib.Status) (a : Rib.AttrId) :
+    (⟨m, st, a⟩ : Rib.Rec) ∈ ((Rib.run v h).store mc).matchExact p {}
+      ↔ (Rib.specRun v mc p m h).entry = some (st, a) := by
+  rw [Rib.Store.mem_matchExact _ ((Rib.WF_run v h).store mc), ← Rib.abs_run, ← Rib.Rib.entry_eq_abs]
+  rfl
+
+theorem table_nil_of_unmentioned (v : Rib.Variant) (h : Rib.History) (mc : Bool) (p : Rib.Prefix)
+    (hno : h.any (Rib.Ev.mentions mc p) = false) : ((Rib.run v h).store mc).matchExact p {} = [] := by
+  have := (Rib.Store.matchExact_isEmpty _ ((Rib.WF_run v h).store mc) p).mpr
+    (fun m => get_none_of_unmentioned v h mc p hno m)
+  exact List.isEmpty_iff.mp this
+
+/-- For UPDATE-only histories, on the table `p` is used with, the per-table fold reports what
+    C01's SAFI-blind specification `last` says. -/
+theorem spec_entry_eq_last (v : Rib.Variant) (h : Rib.History) (hu : h.all Rib.Ev.isUpd = true)
+    (hov : v.overlapFix = true ∨ h.all Rib.Ev.noOverlap = true) (mc : Bool) (p : Rib.Prefix)
+    (hno : h.any (Rib.Ev.mentions (!mc) p) = false) (m : Rib.Mui) :
+    (Rib.specRun v mc p m h).entry = Rib.last h p m := by
+  have hd := Rib.specRun_down_false v mc p m h hu ⟨none, false⟩ rfl
+  have he := Rib.specRun_eq_last v mc p m h hu hov hno ⟨none, false⟩
+  simp only [Rib.specRun, Rib.last] at hd he ⊢
+  simp only [Rib.Abs.entry, hd, he, Bool.false_eq_true, if_false]
+  cases h.foldl (Rib.lastStep p m) none <;> simp
+
+theorem query_eq_of_multicast_nil (r : Rib.Rib) (p : Rib.Prefix) (hm : r.multicast.matchExact p {} = []) :
+    r.query p {} = r.unicast.matchExact p {} := by
+  unfold Rib.Rib.query
+  by_cases he : (r.unicast.matchExact p {}).isEmpty = true
+  · simp only [he, if_true, hm]; exact (List.isEmpty_iff.mp he).symm
+  · simp [he]
+
+theorem query_eq_of_unicast_nil (r : Rib.Rib) (p : Rib.Prefix) (hu : r.unicast.matchExact p {} = []) :
+    r.query p {} = r.multicast.matchExact p {} := by
+  simp [Rib.Rib.query, hu]
+
+/-- When one table is never addressed for `p`, all three ways of combining the tables give the
+    other table's answer. -/
+theorem exactAnswer_of_unmentioned (vq : RibQuery.Variant) (inc : RibQuery.Includes) (v : Rib.Variant)
+    (h : Rib.History) (p : Rib.Prefix) (hno : h.any (Rib.Ev.mentions true p) = false) :
+    exactAnswer vq inc (Rib.run v h) p = (Rib.run v h).unicast.matchExact p {} := by
+  have hm : (Rib.run v h).multicast.matchExact p {} = [] := table_nil_of_unmentioned v h true p hno
+  unfold exactAnswer
+  split
+  · simp [queryMerged, hm]
+  · split
+    · rfl
+    · exact query_eq_of_multicast_nil _ p hm
+
 /-! ## Shared RIB → RibConc's sequential RIB -/
 
 theorem treeIdx_lt (mc : Bool) (f : Rib.Fam) : treeIdx mc f < 4 := by
